@@ -479,7 +479,8 @@ class SymInt(object):
     __rxor__ = __xor__
 
     def __neg__(self):
-        raise EngineLimit('negation of symbolic int')
+        from .symdata import SymNegInt
+        return SymNegInt(self)
 
     def __pos__(self):
         return self
